@@ -77,9 +77,9 @@ def snap(d):
     return dict((k, list(v) if isinstance(v, list) else v) for k, v in d.items())
 
 
-def outcome(api, errs, fmt, tokens, lenient):
+def outcome(api, errs, fmt, tokens, lenient, parser=None, raw=None):
     try:
-        r = api.DefaultArgsParser().parse(api.ArgvArgs(["prog"] + list(tokens)), fmt, lenient)
+        r = (parser or api.DefaultArgsParser()).parse(raw if raw is not None else api.ArgvArgs(["prog"] + list(tokens)), fmt, lenient)
     except Exception as e:
         if isinstance(e, errs["nso"]):
             return ("nso", e)
@@ -112,6 +112,22 @@ def judge_soup(sh, api, errs, fid, fmt, tokens):
                 sh.violate("agreement", case, "strict returned %r, lenient raised %r" % (s[1], l[1]))
         elif not (argline.same(s[1][0], l[1][0]) and argline.same(s[1][1], l[1][1])):
             sh.violate("agreement", case, "strict %r != lenient %r" % (s[1], l[1]))
+    # one parser object and one raw-args object for both modes (a command configured with set_args_parser parses the
+    # same line leniently while resolving and strictly when it runs): the mode still decides, in either order
+    judge_soup.n = getattr(judge_soup, "n", 0) + 1
+    if judge_soup.n % 3 == 0:
+        for order in ((True, False), (False, True)):
+            shared, raw = api.DefaultArgsParser(), api.ArgvArgs(["prog"] + list(tokens))
+            for lenient in order:
+                got = outcome(api, errs, fmt, tokens, lenient, shared, raw)
+                ref = l if lenient else s
+                same = got[0] == ref[0] and (repr(got[1]) == repr(ref[1]) if got[0] != "ok" else (argline.same(got[1][0], ref[1][0]) and argline.same(got[1][1], ref[1][1])))
+                sh.count("shared_parser_parses")
+                if not same:
+                    sh.violate("mode-ignored-on-shared-parser", dict(case, order=["lenient" if x else "strict" for x in order]),
+                               "%s parse of the same raw args on one parser (order %s) gave %r, a fresh parser gives %r" % (
+                                   "lenient" if lenient else "strict", "/".join("lenient" if x else "strict" for x in order), got, ref))
+                    break
 
 
 def classify(fid, tokens, exc):
